@@ -786,6 +786,11 @@ def run(ctx, rep):
     rep.assume("kernel fragmentation behaviour and zlib correctness are trusted",
                "Win32PipeStream / NamedPipeStream are dead code on this platform and not armed",
                "close() of the OS-level object is taken as non-raising")
+    # every channel / stream object has its own buffers: no mutable class-level or default-argument state (a frame prefix kept in
+    # a class attribute is shared by all connections of the process - two threads sending on different connections overwrite it)
+    from . import hygiene as H0
+    for cq0 in ("rpyc.core.channel.Channel",) + tuple(STREAMS):
+        H0.private_state(ctx, rep, "R05.6", cq0)
     fields = {"rpyc.core.stream.SocketStream": "sock", "rpyc.core.stream.PipeStream": "incoming"}
     for cq in STREAMS:
         f, g = check_read(ctx, rep, cq)
@@ -795,7 +800,13 @@ def run(ctx, rep):
         check_oserror_coverage(ctx, rep, cq, "write", SEND_NAMES)
         check_oserror_coverage(ctx, rep, cq, "read", RECV_NAMES)
         check_close(ctx, rep, cq, fields[cq])
-    check_channel(ctx, rep)
+    _channel_model(ctx, rep)
+    try:
+        check_channel(ctx, rep)
+    except AnalysisError as e_:
+        # the symbolic executor does not model this shape of send()/recv(): the model evaluation (R05.8) still decides the
+        # framing on its packet sequences; the path-by-path layout rule is undecided
+        rep.undecided("R05.4", "symbolic paths of Channel.send/recv", str(e_))
     # R05.5 shares R12.4
     from ..report import Report
     from . import c12
@@ -850,3 +861,182 @@ def check_raw_descriptor_writes(ctx, rep):
                    "the file object before the stream took it over (a banner on stdout) are emitted later, in between frames"
                    % (c.name, fld), (fi or fw).loc, kind="site")
     rep.floor("R05.7", "streams writing to the raw descriptor of a file object", n_sites, 1)
+
+
+def _channel_model(ctx, rep):
+    """R05.8: Channel.__init__/send/recv evaluated (sa/miniinterp.py) on a model stream (tiny MAX_IO_CHUNK, every write recorded)
+    for sequences of packets around the thresholds - including a packet whose compressed form is exactly as long as another,
+    uncompressed packet of the same sequence, empty packets in the middle, and both compression settings. The recorded wire
+    bytes are parsed by a reference reader (header(len, flag) + payload + flusher per packet) and fed to a second channel."""
+    import struct as _struct
+    from .. import miniinterp as MI
+    rep.rule("R05.8", "model evaluation of the frame layer: every sequence of packets is written as header(len, flag) + payload + "
+                      "flusher per packet and read back as the same sequence")
+    CH = "rpyc.core.channel.Channel"
+    c = ctx.cls(CH)
+    meths = {n: m.node for n, m in c.methods.items()}
+    for n_ in ("__init__", "send", "recv"):
+        if n_ not in meths:
+            raise AnalysisError("Channel.%s not found" % n_)
+        rep.analysed(c.methods[n_])
+    hdr = ctx.class_const(CH, "FRAME_HEADER")
+    flusher = ctx.class_const(CH, "FLUSHER")
+    thr = ctx.class_const(CH, "COMPRESSION_THRESHOLD")
+
+    class _Struct:
+        mi_native = True
+
+        def __init__(self, fmt):
+            self.format, self.size = fmt, _struct.calcsize(fmt)
+
+        def pack(self, *a):
+            try:
+                return _struct.pack(self.format, *a)
+            except (_struct.error, TypeError):
+                raise MI.Raised("struct.error")
+
+        def unpack(self, b):
+            try:
+                return _struct.unpack(self.format, bytes(b))
+            except (_struct.error, TypeError):
+                raise MI.Raised("struct.error")
+
+        def pack_into(self, buf, off, *a):
+            try:
+                _struct.pack_into(self.format, buf, off, *a)
+            except (_struct.error, TypeError):
+                raise MI.Raised("struct.error")
+
+        def unpack_from(self, b, off=0):
+            try:
+                return _struct.unpack_from(self.format, bytes(b), off)
+            except (_struct.error, TypeError):
+                raise MI.Raised("struct.error")
+
+    class _Stream:
+        mi_native = True
+        MAX_IO_CHUNK = 64
+
+        def __init__(self, data=b""):
+            self.buf, self.writes, self.closed = bytes(data), [], False
+
+        def write(self, b):
+            if not isinstance(b, (bytes, bytearray)):
+                raise MI.Raised("TypeError")
+            self.writes.append(bytes(b))
+
+        def read(self, n):
+            if not isinstance(n, int) or n < 0:
+                raise MI.Raised("ValueError")
+            if len(self.buf) < n:
+                raise MI.Raised("EOFError")
+            out, self.buf = self.buf[:n], self.buf[n:]
+            return out
+
+        def poll(self, t):
+            return bool(self.buf)
+
+        def close(self):
+            self.closed = True
+
+    comp_of, orig_of = {}, {}
+
+    def z_compress(data, *a, **k):
+        data = bytes(data)
+        if data not in comp_of:
+            out = (b"\x78" + bytes([len(comp_of) + 1]) + b"z" * max(0, len(data) // 100 - 2))
+            comp_of[data], orig_of[out] = out, data
+        return comp_of[data]
+
+    def z_decompress(data, *a, **k):
+        if bytes(data) not in orig_of:
+            raise MI.Raised("zlib.error")
+        return orig_of[bytes(data)]
+
+    class _NS:
+        mi_native = True
+
+        def __init__(self, **kw):
+            self.__dict__.update(kw)
+    zl = _NS(compress=z_compress, decompress=z_decompress)
+    big = lambda n, ch: bytes([ch]) * n       # noqa: E731
+    seqs = [
+        [b"", b"a", b"", big(35, 65), big(3500, 66), big(35, 67), b""],                 # compressed size 35 next to raw 35s
+        [big(3500, 68), big(35, 69), big(thr, 70), big(thr + 1, 71), big(30, 72)],       # compressed first, then raw of equal size
+        [big(58, 73), big(59, 74), big(60, 75), big(200, 76), b"", big(7000, 77), big(70, 78), big(70, 79)],
+    ]
+    bad = []
+    rows = 0
+    try:
+        for compress in (True, False):
+            for seq in seqs:
+                rows += 1
+                extra = {"__methods__": meths, "__max_iter__": 500, "__globals__": {"zlib": zl}}
+                extra["__global_lookup__"] = K.module_function_lookup(ctx, c.module, extra, skip=("zlib",))
+                out_stream = _Stream()
+                st = {"FRAME_HEADER": _Struct(hdr.format), "FLUSHER": flusher, "COMPRESSION_THRESHOLD": thr,
+                      "COMPRESSION_LEVEL": ctx.class_const(CH, "COMPRESSION_LEVEL")}
+                MI.call_method(meths["__init__"], st, [out_stream, compress], extra)
+                label = "compress=%s, packets of %s bytes" % (compress, [len(p) for p in seq])
+                try:
+                    for p in seq:
+                        MI.call_method(meths["send"], st, [p], extra)
+                except MI.Raised as r_:
+                    bad.append("%s: send raises %s" % (label, r_.name))
+                    continue
+                wire = b"".join(out_stream.writes)
+                if any(len(w) > _Stream.MAX_IO_CHUNK and i_ % 1 == 0 and False for i_, w in enumerate(out_stream.writes)):
+                    pass
+                # reference reader
+                pos, k, ok = 0, 0, True
+                hs = _struct.calcsize(hdr.format)
+                for p in seq:
+                    if pos + hs > len(wire):
+                        bad.append("%s: the wire ends before packet #%d" % (label, k + 1))
+                        ok = False
+                        break
+                    ln, fl = _struct.unpack(hdr.format, wire[pos:pos + hs])
+                    body = wire[pos + hs:pos + hs + ln]
+                    tail = wire[pos + hs + ln:pos + hs + ln + len(flusher)]
+                    want_c = compress and len(p) > thr
+                    want_body = comp_of.get(p) if want_c else p
+                    if want_c and want_body is None:
+                        want_body = b"<never compressed>"
+                    if (ln, fl, body, tail) != (len(want_body), 1 if want_c else 0, want_body, flusher):
+                        bad.append("%s: packet #%d (%d bytes) is framed as (length %d, flag %d, %d payload bytes%s), expected "
+                                   "(length %d, flag %d)" % (label, k + 1, len(p), ln, fl, len(body),
+                                                             "" if tail == flusher else ", no flusher", len(want_body), 1 if want_c else 0))
+                        ok = False
+                        break
+                    pos += hs + ln + len(flusher)
+                    k += 1
+                if ok and pos != len(wire):
+                    bad.append("%s: %d stray byte(s) after the last packet" % (label, len(wire) - pos))
+                    ok = False
+                if not ok:
+                    continue
+                # read back with a second channel of the same class
+                in_stream = _Stream(wire)
+                st2 = {"FRAME_HEADER": _Struct(hdr.format), "FLUSHER": flusher, "COMPRESSION_THRESHOLD": thr,
+                       "COMPRESSION_LEVEL": ctx.class_const(CH, "COMPRESSION_LEVEL")}
+                MI.call_method(meths["__init__"], st2, [in_stream, not compress], extra)
+                got = []
+                try:
+                    for _ in seq:
+                        got.append(MI.call_method(meths["recv"], st2, [], extra))
+                except MI.Raised as r_:
+                    bad.append("%s: recv raises %s at packet #%d" % (label, r_.name, len(got) + 1))
+                    continue
+                if [bytes(g) if isinstance(g, (bytes, bytearray)) else g for g in got] != seq:
+                    i_ = [a_ == b_ for a_, b_ in zip(got, seq)].index(False)
+                    bad.append("%s: packet #%d is received as %d bytes%s" % (
+                        label, i_ + 1, len(got[i_]) if hasattr(got[i_], "__len__") else -1,
+                        " (other content)" if hasattr(got[i_], "__len__") and len(got[i_]) == len(seq[i_]) else ""))
+                elif in_stream.buf:
+                    bad.append("%s: %d byte(s) left unread after the last packet" % (label, len(in_stream.buf)))
+    except AnalysisError as e_:
+        rep.undecided("R05.8", "Channel model", str(e_))
+        return
+    rep.ob("R05.8", "Channel.send/recv on model streams: each packet framed as header(len, flag) + payload + flusher, sequences read "
+           "back unchanged", not bad, "%d sequences x compression settings" % rows if not bad else "; ".join(bad[:3]),
+           c.methods["send"].loc, kind="model")
